@@ -593,7 +593,8 @@ theorem ite_none_some {β : Type} {c : Prop} [Decidable c] {x y : β}
 theorem vwStep_spec (big eps2 : α) (L : List (Fix α))
     (hbig : ∀ a b c, a ∈ L → b ∈ L → c ∈ L → areaFix a b c < big)
     (S S' : VState α) (h : VInv big L S) (hs : vwStep big eps2 S = some S') :
-    VInv big L S' ∧ ∃ id, 0 < id ∧ id + 1 < S.length ∧ S'.map (·.1) = (S.map (·.1)).eraseIdx id := by
+    VInv big L S' ∧ ∃ id, 0 < id ∧ id + 1 < S.length ∧ S'.map (·.1) = (S.map (·.1)).eraseIdx id ∧
+      id = argmin big (S.map (·.2)) := by
   unfold vwStep at hs
   split at hs
   · rename_i hlen
@@ -632,7 +633,7 @@ theorem vwStep_spec (big eps2 : α) (L : List (Fix α))
         · rw [setAire_map_fst, map_eraseIdx']
         · rw [map_eraseIdx']
       generalize (if j > 1 then setAire (S.eraseIdx j) (j - 1) else S.eraseIdx j) = S2 at i2 l2 m2 ⊢
-      refine ⟨?_, j, hj0, hj1, ?_⟩
+      refine ⟨?_, j, hj0, hj1, ?_, eid.symm⟩
       · split
         · exact i2.setAire hbig j hj0 (by omega)
         · exact i2
@@ -675,7 +676,7 @@ theorem vwLoop_spec (big eps2 : α) (L : List (Fix α))
     cases hs : vwStep big eps2 S with
     | none => exact ⟨h, List.Sublist.refl _, rfl, rfl⟩
     | some S' =>
-      obtain ⟨hi, id, h0, h1, hm⟩ := vwStep_spec big eps2 L hbig S S' h hs
+      obtain ⟨hi, id, h0, h1, hm, _⟩ := vwStep_spec big eps2 L hbig S S' h hs
       obtain ⟨r1, r2, r3, r4⟩ := ih S' hi
       refine ⟨r1, ?_, ?_, ?_⟩
       · exact r2.trans (by rw [hm]; exact List.eraseIdx_sublist _ _)
@@ -699,7 +700,7 @@ theorem vwLoop_stops (big eps2 : α) (L : List (Fix α))
     cases hs : vwStep big eps2 S with
     | none => exact hs
     | some S' =>
-      obtain ⟨hi, id, h0, h1, hm⟩ := vwStep_spec big eps2 L hbig S S' h hs
+      obtain ⟨hi, id, h0, h1, hm, _⟩ := vwStep_spec big eps2 L hbig S S' h hs
       have hlen : S'.length = S.length - 1 := by
         have := congrArg List.length hm
         rw [List.length_map, List.length_eraseIdx_of_lt (by rw [List.length_map]; omega), List.length_map] at this
